@@ -458,20 +458,24 @@ func (c *c27Ctx) resumeCase(cs C27Case) {
 
 func TestVerifC27(t *testing.T) {
 	r := ev.Start(t, "C27", "exploration")
-	maxN := r.Pick(300, 3000)
+	maxN := r.Pick(300, 2500)
 	maxM := r.Pick(40, 160)
 	flipAll := r.Pick(128, 300)
 	denseAll := r.Pick(64, 300)
-	r.Rule(fmt.Sprintf("phase 'length': every length n in 0..%d x append variant {AddData, AddHash, alternating}: fresh accumulator, n appends, roots vs reference forest, WitnessFor+Verify of EVERY index (the witness must equal the reference witness; another item's hash and a witness with one bit altered must be rejected: every level for n<=%d, one level per index otherwise), WitnessFor(n), WitnessFor(n+1), Flush twice, roots+witnesses on the flushed object (every index for n<=%d, else first/middle/last two), Recover into a new object from the bucket alone, roots + EVERY index again, append one more (indices as for flushed); phase 'resume': every pair 0<=m<=n<=%d x variant: Flush at m, Recover, append to n, all witnesses, Flush, Recover, all witnesses. A panic in one (n, idx) case is caught and reported, exploration continues. evaluation = one WitnessFor call; non-trivial = distinct (phase, variant, m, n)", maxN, flipAll, denseAll, maxM))
+	maxF := r.Pick(40, 96) // store-fault family: lengths up to here
+	r.Rule(fmt.Sprintf("phase 'length': every length n in 0..%d x append variant {AddData, AddHash, alternating}: fresh accumulator, n appends, roots vs reference forest, WitnessFor+Verify of EVERY index (the witness must equal the reference witness; another item's hash and a witness with one bit altered must be rejected: every level for n<=%d, one level per index otherwise), WitnessFor(n), WitnessFor(n+1), Flush twice, roots+witnesses on the flushed object (every index for n<=%d, else first/middle/last two), Recover into a new object from the bucket alone, roots + EVERY index again, append one more (indices as for flushed); phase 'resume': every pair 0<=m<=n<=%d x variant: Flush at m, Recover, append to n, all witnesses, Flush, Recover, all witnesses; phase 'fault': every length n in 1..%d x variant x m in {0 (nothing flushed before), 1, n/2, n-1} items flushed before: the Flush at n over a bucket wrapper in which exactly the k-th Set fails, for EVERY k of that Flush (counted by a fault-free control run): Flush must report the error, a retried Flush must succeed, roots/witnesses on the live object, Recover into a new object from the store alone: roots + EVERY witness, append 3 more, all witnesses, Flush, Recover, all witnesses (differential against the never-faulted control = reference forest). A panic in one (n, idx) case is caught and reported, exploration continues. evaluation = one WitnessFor call; non-trivial = distinct (phase, variant, m, n)", maxN, flipAll, denseAll, maxM, maxF))
 	r.Assume("reference = aligned binary merkle forest with SHA3-256 over left||right, leaves SHA3-256(item), slot k occupied iff bit k of n", "storage is db.NewMapDB()", "the recover phase of a length is only reachable when Flush succeeds on that length")
 	c := &c27Ctx{r: r, f: c27NewRef(maxN + 2), cnt: map[string]int64{}, flipAll: flipAll, denseAll: denseAll}
 
 	if ev.Replaying() {
 		var cs C27Case
 		ev.ReplayCase(&cs)
-		if cs.Phase == "resume" {
+		switch cs.Phase {
+		case "resume":
 			c.resumeCase(cs)
-		} else {
+		case "fault":
+			c.faultCase(cs)
+		default:
 			c.lengthCase(cs)
 		}
 		r.Finish(false)
@@ -488,6 +492,18 @@ func TestVerifC27(t *testing.T) {
 		for m := 0; m <= n; m++ {
 			for v := 0; v < 3; v++ {
 				cases = append(cases, C27Case{Phase: "resume", Variant: v, M: m, N: n})
+			}
+		}
+	}
+	for n := 1; n <= maxF; n++ {
+		for v := 0; v < 3; v++ {
+			cases = append(cases, C27Case{Phase: "fault", Variant: v, N: n})
+			seen := map[int]bool{}
+			for _, m := range []int{1, n / 2, n - 1} {
+				if m >= 1 && m < n && !seen[m] {
+					seen[m] = true
+					cases = append(cases, C27Case{Phase: "fault", Variant: v, M: m, N: n})
+				}
 			}
 		}
 	}
@@ -509,9 +525,12 @@ func TestVerifC27(t *testing.T) {
 		}
 		r.Nontrivial(fmt.Sprintf("%s/%d/%d/%d", cs.Phase, cs.Variant, cs.M, cs.N))
 		lc := &c27Ctx{r: r, f: c.f, cnt: map[string]int64{}, flipAll: c.flipAll, denseAll: c.denseAll} // per-case counters, merged below
-		if cs.Phase == "resume" {
+		switch cs.Phase {
+		case "resume":
 			lc.resumeCase(cs)
-		} else {
+		case "fault":
+			lc.faultCase(cs)
+		default:
 			lc.lengthCase(cs)
 		}
 		c.mu.Lock()
@@ -545,5 +564,6 @@ func TestVerifC27(t *testing.T) {
 	r.Sanity(c.cnt["altered_witnesses_rejected"] > 0, "no altered witness tried")
 	r.Sanity(heights >= 5, "only %d distinct witness heights seen", heights)
 	r.Sanity(c.cnt["root_lists_compared"] > 0, "no root list compared")
+	r.Sanity(skipped > 0 || (c.cnt["store_faults_injected"] > 0 && c.cnt["store_fault_cases_completed"] > 0), "no store-fault case completed")
 	r.Finish(skipped == 0)
 }
